@@ -20,6 +20,7 @@
 
 use std::cell::Cell;
 use std::collections::BTreeMap;
+use std::sync::atomic::{AtomicBool, AtomicUsize, Ordering};
 use std::sync::{Arc, Condvar, Mutex};
 
 type Probe = Arc<dyn Fn() -> Ready + Send + Sync>;
@@ -82,6 +83,35 @@ struct Sched {
 
 static SCHED: Mutex<Option<Sched>> = Mutex::new(None);
 static CV: Condvar = Condvar::new();
+
+/// Reuse mode: at the end of a run every task unwinds its stack and
+/// exits (instead of parking forever), so that the next run can take
+/// place in the same process.
+static REUSE: AtomicBool = AtomicBool::new(false);
+/// Task threads (client included) that have not exited yet.
+static LIVE: AtomicUsize = AtomicUsize::new(0);
+
+/// Panic payload that takes a task down at the end of a run in reuse mode.
+pub struct RunEnded;
+
+pub fn set_reuse(on: bool) {
+    REUSE.store(on, Ordering::SeqCst);
+}
+
+struct LiveGuard;
+
+impl LiveGuard {
+    fn new() -> Self {
+        LIVE.fetch_add(1, Ordering::SeqCst);
+        LiveGuard
+    }
+}
+
+impl Drop for LiveGuard {
+    fn drop(&mut self) {
+        LIVE.fetch_sub(1, Ordering::SeqCst);
+    }
+}
 
 thread_local! {
     static TASK_ID: Cell<Option<usize>> = const { Cell::new(None) };
@@ -196,6 +226,9 @@ impl Sched {
 fn end_run() -> ! {
     // Wake the main thread, which prints the result and exits the process.
     CV.notify_all();
+    if REUSE.load(Ordering::SeqCst) && !std::thread::panicking() {
+        std::panic::resume_unwind(Box::new(RunEnded));
+    }
     loop {
         std::thread::park();
     }
@@ -204,6 +237,13 @@ fn end_run() -> ! {
 fn yield_point(label: &str, wait: Wait, spinning: bool) -> Decision {
     let Some(id) = me() else { return Decision::Go };
     let mut guard = SCHED.lock().unwrap();
+    if REUSE.load(Ordering::SeqCst)
+        && std::thread::panicking()
+        && guard.as_ref().map_or(true, |s| s.ended.is_some())
+    {
+        // A destructor running while the task unwinds after the end of the run.
+        return Decision::Go;
+    }
     let ok = match guard.as_mut() {
         None => return Decision::Go,
         Some(s) => {
@@ -316,6 +356,7 @@ fn task_finish(id: usize, panic_msg: Option<String>) {
     if !s.schedule(id, false) {
         drop(guard);
         if id == 0 {
+            CV.notify_all();
             return;
         }
         end_run();
@@ -328,6 +369,8 @@ pub struct RunResult {
     pub notes: Vec<(usize, usize, String)>,
     pub end: String,
     pub tasks: Vec<String>,
+    /// Reuse mode: some task had not exited three seconds after the end of the run.
+    pub leaked: bool,
 }
 
 /// Run `f` as task 0 of a controlled run and wait for the run to end
@@ -361,11 +404,18 @@ pub fn run_controlled(
     }
     // The client runs on its own thread so that this thread can
     // collect the result when the run ends while the client is parked.
+    let live = LiveGuard::new();
     std::thread::Builder::new()
         .name("verif-client".to_owned())
         .spawn(move || {
+            let _live = live;
             TASK_ID.with(|t| t.set(Some(0)));
             let r = std::panic::catch_unwind(std::panic::AssertUnwindSafe(f));
+            if let Err(e) = &r {
+                if e.is::<RunEnded>() {
+                    return;
+                }
+            }
             let msg = r.err().map(|e| {
                 if let Some(s) = e.downcast_ref::<&str>() {
                     (*s).to_owned()
@@ -391,12 +441,24 @@ pub fn run_controlled(
     }
     // Leave the scheduler in place (ended): parked tasks may still look at it.
     let s = guard.as_mut().unwrap();
-    RunResult {
+    let mut result = RunResult {
         trace: std::mem::take(&mut s.trace),
         notes: std::mem::take(&mut s.notes),
         end: s.ended.clone().unwrap_or_default(),
         tasks: s.tasks.iter().map(|t| t.name.clone()).collect(),
+        leaked: false,
+    };
+    drop(guard);
+    if REUSE.load(Ordering::SeqCst) {
+        // Every task unwinds and exits; the next run may only start once they are gone.
+        let deadline = std::time::Instant::now() + std::time::Duration::from_secs(3);
+        while LIVE.load(Ordering::SeqCst) > 0 && std::time::Instant::now() < deadline {
+            CV.notify_all();
+            std::thread::sleep(std::time::Duration::from_micros(200));
+        }
+        result.leaked = LIVE.load(Ordering::SeqCst) > 0;
     }
+    result
 }
 
 // -----------------------------------------------------------------
@@ -589,6 +651,39 @@ pub mod mpsc {
     }
 }
 
+pub mod sync {
+    //! Drop-in replacement for `std::sync::Mutex` as `nrepl.rs` and the
+    //! interpreter's output capture use it: every `lock()` is a
+    //! scheduling point, and a lock held by a paused task makes the
+    //! caller wait visibly instead of blocking the baton holder.
+    use super::{controlled, me, yield_point, Wait};
+    use std::sync::{LockResult, MutexGuard, TryLockError};
+
+    #[derive(Debug, Default)]
+    pub struct Mutex<T>(std::sync::Mutex<T>);
+
+    impl<T> Mutex<T> {
+        pub fn new(t: T) -> Self {
+            Mutex(std::sync::Mutex::new(t))
+        }
+
+        pub fn lock(&self) -> LockResult<MutexGuard<'_, T>> {
+            if controlled() && me().is_some() {
+                let mut spinning = false;
+                loop {
+                    yield_point("mutex.lock", Wait::None, spinning);
+                    match self.0.try_lock() {
+                        Ok(g) => return Ok(g),
+                        Err(TryLockError::Poisoned(p)) => return Err(p),
+                        Err(TryLockError::WouldBlock) => spinning = true,
+                    }
+                }
+            }
+            self.0.lock()
+        }
+    }
+}
+
 pub mod thread {
     //! Drop-in replacement for the part of `std::thread` that
     //! `nrepl.rs` uses.
@@ -632,14 +727,19 @@ pub mod thread {
             let Some(id) = id else {
                 return b.spawn(f).map(|inner| JoinHandle { inner, task: None });
             };
+            let live = super::LiveGuard::new();
             let inner = b.spawn(move || {
-                task_body_start(id);
-                let r = std::panic::catch_unwind(std::panic::AssertUnwindSafe(f));
+                let _live = live;
+                let r = std::panic::catch_unwind(std::panic::AssertUnwindSafe(|| {
+                    task_body_start(id);
+                    f()
+                }));
                 match r {
                     Ok(v) => {
                         task_finish(id, None);
                         v
                     }
+                    Err(e) if e.is::<super::RunEnded>() => std::panic::resume_unwind(e),
                     Err(e) => {
                         let msg = if let Some(s) = e.downcast_ref::<&str>() {
                             (*s).to_owned()
